@@ -11,6 +11,7 @@ package main
 import (
 	"bytes"
 	"fmt"
+	"io"
 	"os"
 	"os/exec"
 	"strings"
@@ -85,7 +86,7 @@ func controlAddrs() []uint16 {
 }
 
 func run(c *rig.Ctx) {
-	c.Require("single_write_cases", "dma_cases", "history_ops", "program_cycles", "image_cases", "constructions_failed", "constructions_ok", "programs_ended_at_undefined_opcode")
+	c.Require("single_write_cases", "dma_cases", "history_ops", "program_cycles", "image_cases", "constructions_failed", "constructions_ok", "programs_ended_at_undefined_opcode", "programs_with_outputs_attached")
 
 	// (v) deliberate stop: only run when asked for explicitly (each in its own child process)
 	if c.OnlyPart == "undef" {
@@ -245,7 +246,14 @@ func run(c *rig.Ctx) {
 		default:
 			p = prog.Generate(r, prog.Options{Interrupts: r.Bool(), Hardware: true, OAMFocus: true, Serial: true, CartType: -1})
 		}
-		m, err := rig.New(p.ROM, rig.Opts{})
+		// half the programs run with sample outputs and a serial writer attached, so the sample
+		// mixer and the serial path see the hostile register values too
+		opts := rig.Opts{}
+		if i%8 >= 4 {
+			opts = rig.Opts{AudioOut: true, SerialWriter: io.Discard}
+			c.Count("programs_with_outputs_attached", 1)
+		}
+		m, err := rig.New(p.ROM, opts)
 		if err != nil {
 			c.Violate("program-image-does-not-load", fmt.Sprintf("harness-built image of cart type %02X does not load: %v", p.CartType, err), nil)
 			return
